@@ -189,3 +189,28 @@ class Report:
         if analysis_error is not None:
             print(f'NOTE: a later rule could not be evaluated on this tree: {analysis_error}')
         return 1 if new else 0
+
+
+class Sub:
+    """Forward the obligations of a shared sub-check under another rule id (a premise one property borrows from another)."""
+    def __init__(self, R, mapping=None, default=None, why=None, prefix_map=None):
+        self._R, self._m, self._d, self._why, self._pm = R, mapping or {}, default, why, prefix_map or {}
+
+    def _rule(self, rule):
+        if rule in self._m:
+            return self._m[rule]
+        for k, v in self._pm.items():
+            if rule.startswith(k):
+                return v
+        return self._d or rule
+
+    def ob(self, rule, *a, **kw):
+        if self._why:
+            kw['why'] = self._why
+        return self._R.ob(self._rule(rule), *a, **kw)
+
+    def undecided(self, rule, *a, **kw):
+        return self._R.undecided(self._rule(rule), *a, **kw)
+
+    def __getattr__(self, k):
+        return getattr(self._R, k)
